@@ -190,6 +190,20 @@ pub fn space(thorough: bool) -> Vec<Prog> {
             }
         }
     }
+    // wide: 70 overrides of rotating type / default / id
+    {
+        let mut specs = vec![];
+        for i in 0..70usize {
+            let mut sp = s[(i * 7) % s.len()].clone();
+            sp.name = format!("wide_ov_{i}");
+            sp.id = if i % 3 == 0 { Some(1000 + i as u32) } else { None };
+            if sp.default == ODefault::Dependent {
+                sp.default = ODefault::Literal;
+            }
+            specs.push(sp);
+        }
+        out.push(build(specs, "wide|70".to_string()));
+    }
     // pairs: all ordered pairs in thorough, a diagonal band in quick
     for (i, a) in s.iter().enumerate() {
         for (j, b) in s.iter().enumerate() {
